@@ -497,6 +497,7 @@ public:
     std::unique_ptr<bwd_analyzer_t> B = nullptr;
     while (true) {
       iters++;
+      CRAB_VERIF_TICK();
       crab::CrabStats::count("CombinedForwardBackward.iterations");
       CRAB_VERBOSE_IF(1, get_msg_stream() << "Iteration " << iters << "\n"
                                           << "Started forward analysis.\n";);
